@@ -394,8 +394,9 @@ RM_ASSUMPTIONS = [
 # ---------------------------------------------------------------- C15: race detector + linearizability
 
 C15_SPEC = dict(
-    floors={"c15_bursts": 1000, "c15_overlapping_call_pairs": 5000, "c15_linearizable_bursts": 1000, "c15_fetches_checked": 2000, "c15_kubelet_calls": 300},
-    rule="the rm driver built with -race; bursts of 2-6 goroutines calling the real handlers concurrently (RunPodSandbox, CreateContainer, Start/Update/Stop/RemoveContainer, Stop/RemovePodSandbox racing with creates in the same pod, Synchronize, reconfigure) while a fake kubelet pod-resources gRPC server answers with PRNG-chosen delays; oracles: (1) race reports with a repository frame on both stacks, deduplicated by the pair of racing repository functions, (2) porcupine linearizability of the recorded call/return history against a sequential model of cache membership with final cache contents appended as reads, (3) state-invariant monitors (C01-C05/C09 clauses that do not depend on reply order) at quiescence, (4) 125 s watchdog with two goroutine dumps, (5) InsertPod/GetPodResources fetch visibility. distinct = distinct (policy, burst size, completion order) of bursts",
+    floors={"c15_bursts": 1000, "c15_overlapping_call_pairs": 5000, "c15_linearizable_bursts": 1000, "c15_fetches_checked": 2000, "c15_kubelet_calls": 300,
+            "c15_kubelet_calls_failed": 200, "c15_kubelet_calls_hung": 30, "c15_rejected_reconfs_raced": 100, "c15_create_replies_checked_against_accepted_configs": 300},
+    rule="the rm driver built with -race; bursts of 2-6 goroutines calling the real handlers concurrently (RunPodSandbox, CreateContainer, Start/Update/Stop/RemoveContainer, Stop/RemovePodSandbox racing with creates in the same pod, Synchronize, reconfigure; every fourth history also races reconfigurations that the policy rejects only after it has started to apply them against creates, and no CreateContainer reply may then pin to CPUs outside the available sets of the accepted configurations) while a fake kubelet pod-resources gRPC server answers with PRNG-chosen delays, injected errors and answers later than the client's timeout; oracles: (1) race reports with a repository frame on both stacks, deduplicated by the pair of racing repository functions, (2) porcupine linearizability of the recorded call/return history against a sequential model of cache membership with final cache contents appended as reads, (3) state-invariant monitors (C01-C05/C09 clauses that do not depend on reply order) at quiescence, (4) 65 s watchdog with two goroutine dumps, (5) InsertPod/GetPodResources fetch visibility. distinct = distinct (policy, burst size, completion order) of bursts",
     assumptions=["a clean -race run says nothing about pairs of accesses that never both executed",
                  "the order in which concurrent replies reach the runtime is unknown, so runtime-view clauses are not evaluated after bursts"],
 )
